@@ -49,18 +49,19 @@ for _wp in (0, 1):
     for _wn in (0, 1):
         PRINTERS["s%d%d" % (_wp, _wn)] = "string(with_param=%s, with_name=%s)" % (bool(_wp), bool(_wn))
         PRINTERS["y%d%d" % (_wp, _wn)] = "system.string(with_param=%s, with_name=%s)" % (bool(_wp), bool(_wn))
-QUICK = ["keys_q", "coefs_q", "pkinds_q", "system_q", "config_q", "configsys_q", "faults2_q"]
+QUICK = ["keys_q", "coefs_q", "pkinds_q", "system_q", "config_q", "configsys_q", "faults2_q", "emptylist_q"]
 THOROUGH = ["keys_t", "coefs_t", "params_t", "pkinds_t", "system_t", "system2_t", "system_q", "system3_q",
-            "config_t", "configsys_t", "faults_t", "faults_q", "faults2_q"]
+            "config_t", "configsys_t", "faults_t", "faults_q", "faults2_q", "emptylist_q"]
 NEED = {
     "keys": ["-br", "-bareparen", "-inact", "-rep"],
     "coefs": ["-dec", "-star", "-rep", "-inact"],
     "params": ["-param", "-kw", "-eq"],
-    "pkinds": ["-param", "-qty", "-sym", "-kw", "-eq"],
+    "pkinds": ["-param", "-qty", "-sym", "-kw", "-eq", "-zero"],
+    "emptylist": ["fault-unknownkey"],
     "system": ["-sys", "-param"],
     "system2": ["-sys", "-inact", "-kw"],
     "system3": ["-sys", "-kw", "-eq"],
-    "config": ["-wide", "-tight", "-lfnt", "-crlf", "-gempty", "-gnone", "-args"],
+    "config": ["-wide", "-tight", "-lfnt", "-crlf", "-gempty", "-gnone", "-args", "-dontcheck", "-zero"],
     "configsys": ["-ctoks", "-msfk", "-crlf", "fault-notacomment", "fault-unknownkey", "-empty", "-allowed-alias"],
     "faults": ["fault-unknownkey", "fault-missingarrow", "fault-wrongarrow", "ok-"],
     "faults2": ["fault-unknownkey", "fault-missingarrow", "fault-wrongarrow", "-allowed-tuple", "-allowed-set",
@@ -134,6 +135,10 @@ def judge_case(case, obs):
     bad = _lines_diff(obs["after_lines"], e["lines"])
     if bad:
         return ("copy", ["original-changed-with-copy"] + bad, {"lines": e["lines"]})
+    if not obs["twin_eq"]:
+        return ("read-twice", ["not-equal"], {"twin_eq": True})
+    if not obs["twin_indep"]:
+        return ("read-twice", ["objects-share-state"], {"twin_indep": True})
     if obs["edit"] != e["edit"]:
         return ("copy-after-edit", ["edit-keys"], {"edit": e["edit"]})
     if not obs["edit_copy_eq"]:
@@ -147,13 +152,13 @@ def judge_case(case, obs):
     if bad:
         return ("copy(param=...)", bad, {"lines": e["copy_over"]})
     if e["printable"]:
-        exp_by_opt = {(x["wp"], x["wn"]): x for x in e["rt"]}
-        seen = set((rt["wp"], rt["wn"]) for rt in obs["rts"])
+        exp_by_opt = {(x["wp"], x["wn"], x["nd"]): x for x in e["rt"]}
+        seen = set((rt["wp"], rt["wn"], rt["nd"]) for rt in obs["rts"])
         if set(exp_by_opt) - seen:
             return ("roundtrip", ["not-observed"], None)
         for rt in obs["rts"]:
             what = "roundtrip-" + PRINTERS.get(rt["kind"], rt["kind"])
-            x = exp_by_opt.get((rt["wp"], rt["wn"]))
+            x = exp_by_opt.get((rt["wp"], rt["wn"], rt["nd"]))
             if x is None:
                 return (what, ["option"], None)
             if rt["raised"]:
@@ -169,13 +174,23 @@ def judge_case(case, obs):
                 return (what, ["printed-text-rejected"], {"rt": x})
             if all(xl["exact"] for xl in x["lines"]) and not rt["eq"]:
                 return (what, ["not-equal-to-original"], {"rt": x})
+        ra = obs["reassign"]
+        if ra["raised"]:
+            return ("reassign-param-then-print", ["printed-text-rejected"], {"lines": e["reassign"]})
+        if len(ra["lines"]) != len(e["reassign"]):
+            return ("reassign-param-then-print", ["number-of-reactions"], {"lines": e["reassign"]})
+        bad = []
+        for o, xl in zip(ra["lines"], e["reassign"]):
+            bad += _rt_line_diff(o, xl)
+        if bad:
+            return ("reassign-param-then-print", sorted(set(bad)), {"lines": e["reassign"]})
     return None
 
 
 def replay_case(case):
     i, e = case["in"], case["exp"]
     nochecks = bool(e["raise"] or any(e["nochecks"]) or e["duplicates"])
-    opts = [(x["wp"], x["wn"], x["duplicates"]) for x in e["rt"]] if e["printable"] else None
+    opts = [(x["wp"], x["wn"], x["nd"], x["duplicates"]) for x in e["rt"]] if e["printable"] else None
     obs = rc.observe(i["doc"], i["klass"], i["system"], i["allowed"], i["cfg"], nochecks, opts, e["override"])
     return obs, judge_case(case, obs)
 
@@ -198,7 +213,7 @@ def _key(fn, what, fields, cfg, allowed, cls=None, empty=False):
 
 # ---------------------------------------------------------------- traces
 OBS_KEYS = ("doc", "klass", "raised", "lines", "copy_eq", "copy_lines", "substances", "copy_indep", "after_lines",
-            "copy_over_lines", "edit", "edit_lines", "edit_copy_eq", "edit_str_eq")
+            "copy_over_lines", "edit", "edit_lines", "edit_copy_eq", "edit_str_eq", "twin_eq", "twin_indep")
 OVERRIDE = {"neg": False, "digs": [7, 2, 5], "e": 0}     # ReactionText!OverrideParam (checked by TLC: copy-over clause)
 
 
@@ -216,7 +231,8 @@ def run_trace(events):
     if facts["printable"]:
         tr += [{"k": "print"}, {"k": "parse"}]
     o = {k: obs[k] for k in OBS_KEYS}
-    o["rts"] = [{k: rt[k] for k in ("kind", "wp", "wn", "raised", "lines", "eq")} for rt in obs["rts"]]
+    o["rts"] = [{k: rt[k] for k in ("kind", "wp", "wn", "nd", "raised", "lines", "eq")} for rt in obs["rts"]]
+    o["reassign"] = {"raised": obs["reassign"]["raised"], "lines": obs["reassign"]["lines"]}
     tr.append({"k": "result", "obs": o})
     return tr, obs, facts
 
@@ -272,7 +288,8 @@ def _judge_traces(ctx, seqs, labels):
             raise core.MachineryFailure("generated trace outside the model: %s at %d: %r" % (clause, pos, txt))
         field = clause.split(":")[-1]
         fields = ["raise"] if clause == "unexpected-raise" else [field]
-        what = "copy" if clause.startswith("copy") else ("roundtrip" if clause.startswith("rt-") else "read")
+        what = "copy" if clause.startswith("copy") else ("roundtrip" if clause.startswith("rt-") else (
+            "reassign" if clause.startswith("reassign") else ("read-twice" if clause.startswith("twin") else "read")))
         ctx.violation(_key(_fn(obs["klass"], facts["system"]), what, fields, obs["cfg"], obs["allowed"],
                            empty=facts["nlines"] == 0),
                       {"direction": "code->spec", "trace": tr, "text": txt, "source": label,
@@ -336,7 +353,7 @@ def run(ctx):
 
     # ---- code -> spec: seeded texts beyond the bounds and the lines the repository's tests and
     # docstrings parse, judged by TLC
-    n = 800 if ctx.quick else 40000
+    n = 800 if ctx.quick else 20000
     g = rc.Gen(ctx.rng, max_terms=5 if ctx.quick else 8)
     seqs, labels = [], []
     faults = [None, None, None, None, None, None, "unknown", "stale", "missingarrow", "wrongarrow"]
